@@ -20,7 +20,7 @@ CLANG_FLAGS = ['-std=c++17', '-O1', '-Xclang', '-disable-llvm-passes', '-fno-exc
                '-I', os.path.join(REPO, 'src'), '-I', os.path.join(ROOT, 'wrappers')]
 OPT_FLAGS = ['-S', '-O1', '-vectorize-loops=false', '-vectorize-slp=false', '-unroll-threshold=0']
 
-CBMC_BASE = ['--unwinding-assertions', '--undefined-shift-check', '--drop-unused-functions', '--no-malloc-may-fail', '--trace', '--verbosity', '8',
+CBMC_BASE = ['--unwinding-assertions', '--drop-unused-functions', '--no-malloc-may-fail', '--trace', '--verbosity', '8',
              '--no-standard-checks', '--bounds-check', '--pointer-check', '--div-by-zero-check',
              '--pointer-primitive-check']
 
@@ -190,27 +190,32 @@ def loop_bounds(b, ob):
             '--function', ob.entry, '--drop-unused-functions', '--show-loops'] + ['-D' + d for d in ob.defs]
     r = sh(base)
     out = []
-    hbase = os.path.basename(ob.harness)
+    hpath = os.path.realpath(os.path.join(ROOT, ob.harness))
     for m in re.finditer(r'^Loop (\S+):\n\s+file (\S+) line', r.stdout, re.M):
         lid, f = m.group(1), m.group(2)
-        if os.path.basename(f) == hbase or f.endswith('vh.h'): out.append('%s:%d' % (lid, ob.hunwind + 1))
+        if os.path.realpath(f) == hpath or f.endswith('vh.h') or f.endswith('jdh.h'): out.append('%s:%d' % (lid, ob.hunwind + 1))
         else:
             for rx, n in ob.lunwind:
                 if re.search(rx, lid): out.append('%s:%d' % (lid, n)); break
     return out
 
-def cbmc_cmd(b, ob, witness=False, backend=None):
+def cbmc_cmd(b, ob, witness=False, backend=None, fixed=None):
     cmd = ['cbmc', b.p('.c'), os.path.join(ROOT, ob.harness), '-I', b.dir, '-I', ENG, '-I', os.path.join(ROOT, 'harness'),
            '--function', ob.entry, '--unwind', str(ob.unwind)]
     if not hasattr(ob, '_lb'): ob._lb = loop_bounds(b, ob)
     for u in list(ob.unwindset) + ob._lb: cmd += ['--unwindset', u]
-    cmd += CBMC_BASE
-    if ob.ptr_overflow: cmd += ['--pointer-overflow-check']
+    if witness:   # reachability only: no memory-safety instrumentation, the only properties are the WITNESS points
+        cmd += [x for x in CBMC_BASE if x not in ('--bounds-check', '--pointer-check', '--div-by-zero-check', '--pointer-primitive-check')] + ['--stop-on-fail']
+    else:
+        cmd += CBMC_BASE
+        if ob.ptr_overflow: cmd += ['--pointer-overflow-check']
     if ob.objbits: cmd += ['--object-bits', str(ob.objbits)]
-    if ob.fs == 'none': cmd += ['--no-array-field-sensitivity']
+    if fixed is not None: cmd += ['--max-field-sensitivity-array-size', '4096']   # concrete run: let constants flow through arrays
+    elif ob.fs == 'none': cmd += ['--no-array-field-sensitivity']
     elif ob.fs != 'default': cmd += ['--max-field-sensitivity-array-size', str(ob.fs)]
     cmd += ['-D' + d for d in ob.defs]
     if witness: cmd += ['-DWITNESS']
+    if fixed is not None: cmd += ['-DVIN_FIXED_LIST=' + ','.join('%dULL' % v for v in (fixed or [0]))]
     cmd += BACKENDS[backend or ob.backend]
     cmd += ob.flags
     return cmd
@@ -224,8 +229,8 @@ def limits(cpu_s, mem_gb):
 
 PROP_RE = re.compile(r'^\[([^\]]+)\] (?:line (\d+) )?(.*): (SUCCESS|FAILURE|UNKNOWN)$')
 
-def run_cbmc(b, ob, witness=False, backend=None, cap=None):
-    cmd = cbmc_cmd(b, ob, witness, backend)
+def run_cbmc(b, ob, witness=False, backend=None, cap=None, fixed=None):
+    cmd = cbmc_cmd(b, ob, witness, backend, fixed)
     env = dict(os.environ)
     if (backend or ob.backend) == 'cvc5int': env['PATH'] = os.path.join(ENG, 'shim') + ':' + env['PATH']
     cap = cap or ob.cap
@@ -249,6 +254,7 @@ def run_cbmc(b, ob, witness=False, backend=None, cap=None):
     for l in out.split('\n'):
         m = PROP_RE.match(l.strip())
         if m: props.append(dict(id=m.group(1), line=m.group(2), desc=m.group(3), status=m.group(4)))
+    res['witness_hit'] = sorted(set(re.findall(r'^\s*(WITNESS [\w-]+)\s*$', out, re.M)))
     res['n_props'] = len(props)
     res['failed'] = [p_ for p_ in props if p_['status'] == 'FAILURE']
     m = re.search(r'size of program expression: (\d+) steps', out); res['steps'] = int(m.group(1)) if m else 0
@@ -281,7 +287,20 @@ def process_ob(b, ob, log, seed, replay_dir, prop=None):
     wfut = None
     if ob.witness:   # the witness twin runs concurrently with the main query
         wres = {}
-        def _w(): wres['w'] = run_cbmc(b, ob, witness=True)
+        def _w():
+            # 1) look natively for an input that passes every assumption, then let CBMC run the harness on exactly
+            #    that input (constant propagation: cheap) - this also cross-checks CBMC's model against the native run;
+            # 2) otherwise decide reachability symbolically (bounded by a quarter of the obligation's budget).
+            try:
+                fixed = find_passing_input(b, ob, log, seed)
+            except Exception as e:
+                fixed = None
+            if fixed is not None:
+                w = run_cbmc(b, ob, witness=True, backend='minisat', fixed=fixed, cap=max(60, ob.cap // 4)); w['mode'] = 'concrete input found natively'
+                if w['verdict'] == 'failed' and (w.get('witness_hit') or any('WITNESS' in f['desc'] for f in w.get('failed', []))):
+                    w['vin'] = fixed; wres['w'] = w; return
+            w = run_cbmc(b, ob, witness=True); w['mode'] = 'symbolic'
+            wres['w'] = w
         wfut = threading.Thread(target=_w); wfut.start()
     main = run_cbmc(b, ob)
     if wfut: wfut.join()
@@ -290,8 +309,8 @@ def process_ob(b, ob, log, seed, replay_dir, prop=None):
     if main['verdict'] == 'success':
         if ob.witness:
             w = wres['w']
-            wf = [f for f in w.get('failed', []) if 'WITNESS' in f['desc']]
-            rec['witness'] = dict(verdict=w['verdict'], wall_s=w['wall_s'], reached=[f['desc'] for f in wf], vin=['%x' % v for v in w.get('vin', [])][:24])
+            wf = [f for f in w.get('failed', []) if 'WITNESS' in f['desc']] or [dict(desc=x) for x in w.get('witness_hit', [])]
+            rec['witness'] = dict(verdict=w['verdict'], wall_s=w['wall_s'], mode=w.get('mode'), reached=[f['desc'] for f in wf], vin=['%x' % v for v in w.get('vin', [])][:24])
             if w['verdict'] in ('timeout', 'oom'):
                 rec['status'] = 'undecided'; rec['why'] = 'witness twin ' + w['verdict']; return rec
             if not wf:
@@ -324,6 +343,22 @@ def process_ob(b, ob, log, seed, replay_dir, prop=None):
         rec['status'] = 'undecided'; rec['why'] = main['verdict'] + ': ' + main.get('tail', '')[-300:]
     # translation validation on this harness (native differential), only when the main query was decided
     return rec
+
+def find_passing_input(b, ob, log, seed, tries=3000, budget_s=40):
+    """pseudo-random native runs of the harness (real code); returns the drawn values of the first run that passes all
+    assumptions and reaches the end of the harness, or None"""
+    eg, er = native_exes(b, ob, log)
+    dump = os.path.join(b.dir, re.sub(r'[^A-Za-z0-9_]', '_', ob.name) + '.dump')
+    t0 = time.time()
+    for k in range(tries):
+        if time.time() - t0 > budget_s: break
+        env = dict(os.environ); env['VIN_SEED'] = str((seed * 7919 + k * 104729 + 3) & 0x7fffffff); env['VIN_DUMP'] = dump
+        env['ASAN_OPTIONS'] = 'detect_leaks=0'
+        try: r = subprocess.run([er], stdout=subprocess.PIPE, stderr=subprocess.PIPE, text=True, env=env, timeout=20, errors='replace')
+        except subprocess.TimeoutExpired: continue
+        if r.returncode == 0 and 'DONE' in r.stdout:
+            return [int(l, 16) for l in open(dump) if l.strip()]
+    return None
 
 def write_vin(path, vin):
     with open(path, 'w') as f:
